@@ -427,7 +427,14 @@ impl TransactionBuilder {
         inputs: &TransactionUnspentOutputs,
         strategy: CoinSelectionStrategyCIP2,
     ) -> Result<(), JsError> {
-        let mut available_inputs: Vec<&TransactionUnspentOutput> = inputs.0.iter().collect();
+        // an offered UTxO that is already an input of the transaction brings nothing new
+        let present_inputs: BTreeSet<TransactionInput> =
+            self.inputs.iter().map(|i| i.input.clone()).collect();
+        let mut available_inputs: Vec<&TransactionUnspentOutput> = inputs
+            .0
+            .iter()
+            .filter(|utxo| !present_inputs.contains(&utxo.input))
+            .collect();
         let have_no_inputs_in_tx = !self.inputs.has_inputs();
         let mut input_total = self.get_total_input()?;
         let mut output_total = self
